@@ -179,24 +179,36 @@ def rechunk_job(arg):
     return res
 
 
-def validate_rechunk_traces(chk, traces):
-    """TLC evaluates the P-level of rechunking on every recorded run."""
+def _rechunk_batch(batch):
     d = V.stage_spec(["Chunks", "RechunkTrace"], {})
     with open(os.path.join(d, "traces.json"), "w") as f:
-        json.dump([dict(inp=t["inp"], out=t["out"]) for t in traces], f)
+        json.dump([dict(inp=t["inp"], out=t["out"]) for t in batch], f)
     with open(os.path.join(d, "RechunkTrace.cfg"), "w") as f:
         f.write("SPECIFICATION Spec\nINVARIANT Accepted\nCHECK_DEADLOCK FALSE\n")
-    r = V.run_tlc(d, "RechunkTrace", workers=V.NCPU, timeout=1800, env={"TRACE_FILE": os.path.join(d, "traces.json")},
-                  args=["-continue"])
-    chk.add_tlc(r, "rechunker trace validation")
-    rejected = set()
+    r = V.run_tlc(d, "RechunkTrace", workers=2, timeout=2400, env={"TRACE_FILE": os.path.join(d, "traces.json")},
+                  args=["-continue"], heap="3g")
     import re
-    for m in re.finditer(r"/\\ tid = (\d+)", r.out):
-        rejected.add(int(m.group(1)))
-    if not (r.ok or r.violated):
-        raise V.MachineryError("rechunk trace validation failed: " + r.out[-2000:])
-    if r.violated and not rejected:
-        raise V.MachineryError("rechunk trace validation: violation without trace id: " + r.out[-2000:])
+    rejected = sorted({int(m.group(1)) for m in re.finditer(r"/\\ tid = (\d+)", r.out)})
+    return dict(ok=r.ok, violated=r.violated, rejected=rejected, generated=r.generated, distinct=r.distinct, depth=r.depth, wall=r.wall,
+                out=None if (r.ok or r.violated) else r.out[-2000:])
+
+
+def validate_rechunk_traces(chk, traces):
+    """TLC evaluates the P-level of rechunking on every recorded run (in batches, one TLC run each)."""
+    B = 12000
+    batches = [traces[i:i + B] for i in range(0, len(traces), B)]
+    res = V.pmap(_rechunk_batch, batches, procs=8) if len(batches) > 1 else [_rechunk_batch(b) for b in batches]
+    rejected = set()
+    for k, r in enumerate(res):
+        chk.states += r["distinct"]
+        chk.transitions += r["generated"]
+        chk.tlc_runs.append(dict(what=f"rechunker trace validation, batch {k + 1}/{len(res)}", generated=r["generated"], distinct=r["distinct"],
+                                 depth=r["depth"], ok=r["ok"], violated=r["violated"], wall_s=round(r["wall"], 1)))
+        if r["out"]:
+            raise V.MachineryError("rechunk trace validation failed: " + r["out"])
+        if r["violated"] and not r["rejected"]:
+            raise V.MachineryError("rechunk trace validation: violation without trace id")
+        rejected |= {k * B + i for i in r["rejected"]}
     return rejected
 
 
